@@ -40,7 +40,7 @@ class SurveyScenario(BaseScenario):
     def __init__(self, prop="C20"):
         self.prop = prop
         self.expected_probes = ["link_from_receivers", "link_from_partner", "edit_from_receivers", "edit_from_partner", "copy_plain", "copy_masked", "copy_cross",
-                                "copy_of_copy", "copy_from_partner_side", "reopen", "partner_resolved_after_reopen"] + [f"pair:{p}" for p in PAIRS]
+                                "copy_of_copy", "copy_from_partner_side", "copy_masked_large_loop", "reopen", "partner_resolved_after_reopen"] + [f"pair:{p}" for p in PAIRS]
         self.rule = ("one evaluation = one seeded history on one survey class pair (airborne / moving-loop / large-loop TEM and FEM, tipper, MT, direct current): link "
                      "from either side, edits of shared parameters (channels, unit, input type, loop radius, offsets and angles, waveform, timing mark, component data) "
                      "through either side, copies (plain, masked, cross-workspace, copies of copies, from either side), re-open, GC points, dropped references. After "
@@ -381,13 +381,17 @@ class SurveyScenario(BaseScenario):
         dst_ws = wss[dst_name]
         from_side = "rx" if (pr["px"] is None or not pr["linked"] or r.random() < 0.6) else "partner"
         ent = self.get(src_ws, pr["rx"] if from_side == "rx" else pr["px"])
-        masked = family in ("em", "tipper", "single") and r.random() < 0.3
+        masked = (family in ("em", "tipper", "single") or (family == "large" and from_side == "rx")) and r.random() < 0.35
         kw = {"parent": dst_ws}
         n_keep = N_VERT
         if masked:
-            mask = np.array([i % 2 == 0 for i in range(ent.n_vertices)])
+            if family == "large" and r.random() < 0.6:
+                mask = np.array([i < ent.n_vertices // 2 for i in range(ent.n_vertices)])     # receivers of the first loop only
+            else:
+                mask = np.array([i % 2 == 0 for i in range(ent.n_vertices)])
             n_keep = int(mask.sum())
             kw["mask"] = mask
+        loops_before = self.loops(src_ws, pr) if family == "large" and pr["linked"] and pr["px"] is not None else None
         before = {k: snapshot.canon(self.get(src_ws, pr[k]).metadata) for k in ("rx", "px") if pr[k] is not None}
         try:
             new = ent.copy(**kw)
@@ -432,8 +436,42 @@ class SurveyScenario(BaseScenario):
                     raise Violation("C20", "copy_linked_to_original", "the copy's partner lives in the source workspace", discr)
             del partner
         del new
+        if loops_before is not None and new_pr.get("px") is not None:
+            # large loop: every copied receiver refers, in the copy, to the same loop (same coordinates) as before,
+            # and the copied transmitters hold exactly the loops the copied receivers refer to
+            sim.oracle("large_loop_copy")
+            after = self.loops(dst_ws, new_pr)
+            for coord, loop in after["by_receiver"].items():
+                want = loops_before["by_receiver"].get(coord)
+                if want is None or loop != want or not loop:
+                    raise Violation("C20", "copy_loop_mismatch", f"copied receiver at {coord} refers to loop {sorted(loop)[:2]}..., its original refers to "
+                                    f"{sorted(want)[:2] if want else None}...", {**discr, "what": "wrong_loop"})
+            if from_side == "rx":
+                referred = set(after["by_receiver"].values())
+                if after["loops"] != referred:
+                    raise Violation("C20", "copy_loop_mismatch", f"the copied transmitters hold {len(after['loops'])} loops, the copied receivers refer to {len(referred)}",
+                                    {**discr, "what": "loop_set"})
+                if masked:
+                    sim.probe("copy_masked_large_loop")
         st["pairs"].append(new_pr)
         return "ok"
+
+    def loops(self, ws, pr):
+        """Large-loop pair: receiver coordinates -> coordinates of the loop it refers to; and the set of loops."""
+        rx, tx = self.get(ws, pr["rx"]), self.get(ws, pr["px"])
+        try:
+            rx_ids = np.asarray(rx.tx_id_property.values)
+            tx_ids = np.asarray(tx.tx_id_property.values)
+            cells, tverts, rverts = np.asarray(tx.cells), np.asarray(tx.vertices), np.asarray(rx.vertices)
+
+            def loop(tid):
+                used = np.unique(cells[tx_ids == tid])
+                return frozenset(tuple(float(x) for x in tverts[i]) for i in used)
+
+            by_receiver = {tuple(float(x) for x in rverts[j]): loop(rx_ids[j]) for j in range(len(rverts))}
+            return {"by_receiver": by_receiver, "loops": {loop(t) for t in np.unique(tx_ids)}}
+        finally:
+            del rx, tx
 
     def do_gc(self, sim, wss, st, cfg, r, path):
         sim.collect("event")
